@@ -765,6 +765,40 @@ fn registry_schedule(rep: &mut Report, gate: &Arc<Gate>, b: &Value, idx: usize) 
 }
 
 /// N threads x M addresses, free running.
+/// The gauges themselves: connections of one address opened and closed from many threads at once, many times.  Every
+/// open is one increment and every close one decrement of the per-address and of the global count, so both must be
+/// zero when everything is closed (Listener.tla: Inc, Dec are single steps; variant dec_load_store is rejected).
+fn gauge_hammer(rep: &mut Report, round: usize) {
+    let metrics = Arc::new(RtrServerMetrics::new(true));
+    let addr = IpAddr::V4(Ipv4Addr::new(10, 9, 9, (round % 250) as u8 + 1));
+    let nthreads = 8;
+    let per_thread = 40_000;
+    let start = Arc::new(Barrier::new(nthreads));
+    let joins: Vec<_> = (0..nthreads).map(|_| {
+        let (m, start) = (metrics.clone(), start.clone());
+        std::thread::spawn(move || {
+            let h = m.get_client(addr);
+            start.wait();
+            for k in 0..per_thread {
+                h.update(|x| x.inc_current_connections());
+                if k % 7 == 0 { std::thread::yield_now(); }
+                h.update(|x| x.dec_current_connections());
+            }
+        })
+    }).collect();
+    for j in joins { let _ = j.join(); }
+    rep.eval("C36");
+    let global = metrics.global().current_connections();
+    let per_addr = metrics.clients().and_then(|l| l.iter().find(|(a, _)| *a == addr).map(|(_, m)| m.current_connections()));
+    let beh = json!({"kind": "gauge-hammer", "threads": nthreads, "opens_and_closes_per_thread": per_thread, "round": round});
+    if global != 0 || per_addr != Some(0) {
+        rep.violation("C36", "registry/nonzero-after-close",
+            format!("{} connections of {addr} were opened and closed from {nthreads} threads; afterwards the global gauge shows {global}, the per-address gauge {per_addr:?}", nthreads * per_thread),
+            beh, json!({"global": global, "per_address": per_addr}));
+    }
+    else { rep.nontrivial("C36", format!("gauge-hammer:{round}")); }
+}
+
 fn registry_stress(rep: &mut Report, seed: u64, round: usize, nthreads: usize, naddrs: usize) {
     let metrics = Arc::new(RtrServerMetrics::new(true));
     let addrs: Vec<IpAddr> = (0..naddrs).map(|i| {
@@ -985,6 +1019,7 @@ fn c36(rep: &mut Report, args: &Args, behaviours: &[Value], shard: usize, nshard
         if round % nshards != shard { continue }
         let (nt, na) = match round % 3 { 0 => (8, 24), 1 => (4, 64), _ => (12, 8) };
         registry_stress(rep, args.seed, round, nt, na);
+        if round % 10 == 0 { gauge_hammer(rep, round); }
     }
     let rounds = if args.thorough() { 60 } else { 10 };
     for round in 0..rounds {
